@@ -1345,7 +1345,9 @@ impl DbInner {
 				// On error the log reader may be left in inconsistent state. So it is important
 				// to no attempt any further log enactment.
 				log::debug!(target: "parity-db", "Shutdown with error state {}", err);
-				self.log.clean_logs(self.log.num_dirty_logs())?;
+				// The logs waiting for cleanup are fully enacted, but the tables they were
+				// enacted into may not be flushed yet: flush before truncating them.
+				self.clean_all_logs()?;
 				return Ok(())
 			}
 		}
